@@ -310,7 +310,7 @@ theorem foldNU_defined : ∀ (ds : List Decl) (g : Name) (cur : Option (List Nam
       by_cases hg : f = g
       · subst hg
         have hD : fnDecls (.func f n s e i body :: ds) f = ⟨s, e, i, body⟩ :: fnDecls ds f := by
-          simp [fnDecls, List.filterMap_cons]
+          simp [fnDecls]
         rw [hD] at h1 h2 ⊢
         cases body with
         | some b =>
@@ -335,13 +335,13 @@ theorem foldNU_defined : ∀ (ds : List Decl) (g : Name) (cur : Option (List Nam
           simp [fnBody, List.findSome?]
       · have hg' : ¬ g = f := fun e' => hg e'.symm
         have hD : fnDecls (.func f n s e i body :: ds) g = fnDecls ds g := by
-          simp [fnDecls, List.filterMap_cons, hg]
+          simp [fnDecls, hg]
         rw [hD] at h1 h2 ⊢
         have := foldNU_defined ds g cur h1 h2
         cases body <;> (rw [foldNU_cons]; simp only [stepNU, hg', if_false]; exact this)
     | obj x s e t ty init =>
       have hD : fnDecls (.obj x s e t ty init :: ds) g = fnDecls ds g := by
-        simp [fnDecls, List.filterMap_cons]
+        simp [fnDecls]
       rw [hD] at h1 h2 ⊢
       have := foldNU_defined ds g cur h1 h2
       rw [foldNU_cons]
